@@ -40,8 +40,9 @@ PROPS = {
     "C13": dict(profiles=[P("determinism", 2000, 60000)], fields=["status", "gas", "rc", "ret", "logs", "xf", "oa", "diff"],
                 assumptions=["runtime aspects (map iteration order, goroutines, slice aliasing) are outside any Lean model (partial): decided by run-vs-run comparison on the implementation plus the regenerated zero-spare-capacity fact"]),
     "C14": dict(profiles=[P("codec", 20000, 400000)], fields=["status"], strict=True),
+    # xf: the hand-over message carries the counter the next holder will hold (the "counter ≥ issued nonces" clause)
     "C15": dict(profiles=[P("supply", 2000, 50000), P("transfers", 2000, 50000), P("nonces", 1000, 30000)],
-                fields=["status", "diff"], assumptions=[E_ENV]),
+                fields=["status", "diff", "xf"], assumptions=[E_ENV]),
     "C16": dict(profiles=[P("gas", 4000, 100000)], fields=["status", "gas", "xf"],
                 assumptions=["gas maps never spell one field in two different cases (mapstructure would depend on map order)"]),
     "C17": dict(profiles=[P("faults", 3000, 60000)], fields=["status", "deps"], strict=True,
